@@ -230,6 +230,8 @@ PROFILE = {
                 'ws_fail': 1, 'pong': 1, 'app_send': 4, 'app_disconnect': 2, 'advance': 3,
                 'fault': 1, 'vanish': 1, 'request': 3, 'api': 1},
     'max_sessions': 3,
+    'untagged_empties_pct': 4,       # MESSAGE packets with an empty / one-byte untagged payload
+    'disconnect_dead_sid_pct': 10,   # disconnect('') / (0) / (unknown id)
     'packet_kinds': [('msg', 5), ('pong', 1), ('close', 1), ('upgrade', 1), ('bad', 2)],
     'post_modes': [('pkts', 8), ('raw', 2), ('many', 1)],
     'config': {'http_compression': st.sampled_from([True, False]),
